@@ -7,7 +7,7 @@ open Lean ThaiLintModel
 def langOf : String → Lang
   | "ts" => .ts | "rs" => .rs | _ => .py
 def memberOf : String → Member
-  | "pub" => .pub | "asyncPub" => .asyncPub | "priv" => .priv | "dunder" => .dunder | "ctor" => .ctor | "property" => .property | "static" => .static | _ => .field
+  | "pub" => .pub | "asyncPub" => .asyncPub | "priv" => .priv | "dunder" => .dunder | "ctor" => .ctor | "property" => .property | "static" => .static | "setter" => .setter | _ => .field
 def lineOf : String → LineKind
   | "blank" => .blank | "comment" => .comment | _ => .code
 
